@@ -7,6 +7,8 @@ CONSTANTS
  MaxAfter = 1
  Thin = TRUE
  Stateful = FALSE
+ Forms = {"plain", "access-suffix"}
+ PrefixMatch = FALSE
  Emit = TRUE
 SPECIFICATION Spec
 INVARIANT OnlyDocumented
